@@ -84,8 +84,8 @@ func newEvalPkg(ctx *Ctx, pkgSuffix string, opaque ...string) *Evaluator {
 
 func symArgs(fn *ssa.Function) []Val {
 	var args []Val
-	for _, p := range fn.Params {
-		args = append(args, symVal(p.Name(), p.Type()))
+	for i, p := range fn.Params {
+		args = append(args, symVal(paramName(fn, i), p.Type()))
 	}
 	return args
 }
@@ -111,8 +111,8 @@ func (ev *Evaluator) evalRoot(fn *ssa.Function) (Val, State) {
 func (ev *Evaluator) evalRootWith(fn *ssa.Function, consts map[string]int64) (Val, State) {
 	st := State{mem: map[*Obj]Val{}}
 	args := symArgs(fn)
-	for i, p := range fn.Params {
-		if c, ok := consts[p.Name()]; ok && i < len(args) {
+	for i := range fn.Params {
+		if c, ok := consts[paramName(fn, i)]; ok && i < len(args) {
 			args[i] = K(c)
 		}
 	}
